@@ -110,13 +110,17 @@ SPECS = {
     decreases ctx_limit(old(context)) - old(context).question_stack@.len(), 1int,""",
         "entry": L.BU + " broadcast use group_chain, lemma_chain_concat_b, lemma_merged_nil_b, lemma_nil_concat_b, axiom_rr_vec_len, group_typed, group_local_first, group_any_alias;"},
     "resolve_with_nameserver_response": {
-        "props": ["C06", "C10", "C08"],
+        "props": ["C06", "C07", "C10", "C08"],
         "header_rewrites": [("R32", r"\basync fn\b", "fn")],
         "rewrites": [("R30", r"\s*\.instrument\(tracing::\w+!\((?:[^()]|\([^()]*\))*\)\)", ""), ("R32", r"\s*\.await\b", "")],
         "contract": """    requires old(context).wf(), old(context).r.upstream_dns_port == configured_port(), validated(nameserver_response), resp_shape(nameserver_response, *question),
     ensures
 """ + COMMON_FRAME + """
-        r is Err ==> nameserver_response is Delegation && r->Err_0 == nameserver_response->delegation, // [C06:only_a_validated_referral_replaces_the_candidates]
+        r is Err ==> nameserver_response is Delegation && r->Err_0 == nameserver_response->delegation, // [C06,C07:only_a_validated_referral_replaces_the_candidates]
+        // C07: what the authoritative server answered is what is returned - its records (after any local ones handed in), and for an empty answer its SOA
+        nameserver_response is Answer ==> r is Ok && r->Ok_0 is Ok && r->Ok_0->Ok_0 is NonAuthoritative
+            && r->Ok_0->Ok_0->NonAuthoritative_soa_rr == nameserver_response->Answer_soa_rr
+            && resolved_rrs(r->Ok_0->Ok_0) == merged(combined_rrs@, nameserver_response->Answer_rrs@), // [C07:an_authoritative_answer_is_returned_as_it_is_an_empty_one_with_its_soa]
         question.qtype != QueryType::Wildcard && combined_rrs@.len() == 0 && r is Ok && r->Ok_0 is Ok ==> chain_ok(resolved_rrs(r->Ok_0->Ok_0), question.name), // [C10:upstream_answer_in_chain_order_from_the_question_name]
         typed_ok(combined_rrs@, question.qtype) && r is Ok && r->Ok_0 is Ok ==> typed_ok(resolved_rrs(r->Ok_0->Ok_0), question.qtype), // [C10:only_aliases_and_records_of_the_asked_type]
         // C01: local records handed in keep their place and nothing of their name and type is merged in - unless the reply is an alias
@@ -127,11 +131,11 @@ SPECS = {
 }
 
 CANDIDATES = {
-    "props": ["C06", "C10"],
+    "props": ["C06", "C07", "C10"],
     "rewrites": [("R40", r"DomainName::from_labels\(labels\.into\(\)\)", "DomainName::from_labels(shim_labels_to_vec(labels))")],
     "contract": """    requires old(context).wf(), question.wf(),
     ensures final(context).question_stack@ == old(context).question_stack@, same_env(old(context), final(context)),
-        r is Some ==> is_suffix(r->Some_0.name.labels@, question.labels@), // [C06:candidates_are_nameservers_of_an_ancestor_of_the_question_name]
+        r is Some ==> is_suffix(r->Some_0.name.labels@, question.labels@), // [C06,C07:candidates_are_nameservers_of_an_ancestor_of_the_question_name]
         r is Some ==> r->Some_0.hostnames@.len() > 0, // [C06:candidate_set_is_never_empty]""",
     "entry": L.BU,
     "loops": {"0": {"kw": "for", "iter_name": "it__", "spec": """        invariant context.question_stack@ == old(context).question_stack@, same_env(old(context), &*context), context.wf(), question.wf(),""",
@@ -200,7 +204,7 @@ RRN = {
             zr(old(context), *question) is Some && zr(old(context), *question)->Some_0.1 is Answer && zone_soa_rr(zr(old(context), *question)->Some_0.0) is None
                 ==> local_first(zr(old(context), *question)->Some_0.1->rrs@, combined_rrs@), // [C01:local_records_kept_across_referrals]
             match_count <= question.name.labels@.len(), // [C06:referral_depth_never_exceeds_the_question_name]
-        decreases question.name.labels@.len() - match_count, phase(resolve_candidates_locally), candidate_hostnames@.len(),
+        decreases question.name.labels@.len() - match_count, phase(resolve_candidates_locally), candidate_hostnames@.len(), // [C06,C07,C08:each_referral_followed_is_strictly_closer_to_the_question_name]
 """, "entry": L.BU + " broadcast use group_chain, lemma_chain_concat_b, lemma_merged_nil_b, lemma_nil_concat_b, axiom_rr_vec_len, axiom_dn_vec_len;"}},
 }
 
